@@ -58,6 +58,9 @@ std::istream& deserialize(std::istream& _istr, std::string& _rhs)
         std::vector<char> tmp(len);
         _istr.read(&tmp[0] , len); //deserialize characters of string
         _rhs.assign(&tmp[0], len);
+    } else if (_istr) {
+        // "0:" is the empty string, not "keep what the target holds"
+        _rhs.clear();
     }
 
     return _istr;
